@@ -134,6 +134,7 @@ Definition xviol_1504 (d : xdoc) : bool :=                                      
       || existsb (fun l => match l with LIndex i => (dim <=? i)%nat | LCoord _ => false end) (x_locs d)
   | Some [] => false
   | None => negb (existsb loc_is_index (x_locs d)) && nonempty (x_profiles d) && negb (nonempty (x_locs d))
+            && negb (existsb (fun s => s <=? 0) (x_speeds d))       (* nothing is approximated for a speed that is not positive *)
   end.
 Definition xviol_1505 (d : xdoc) : bool :=                                                             (* R20 *)
   existsb (fun v => negb (has_str (v_profile v) (x_profiles d))) (xvehicles d)
@@ -216,8 +217,8 @@ Definition g1_goal_unbuildable (d : xdoc) : bool :=
 Definition g2_required_breaks (d : xdoc) : bool := g2_required_breaks_of (xbase d).
 
 Definition xknown_table : list (Z * (xdoc -> bool)) :=
-  [(6, on_base k6_capacity_empty); (7, xk7_over8); (8, on_base k8_empty_demand_vectors); (9, on_base k9_no_vehicles);
-   (11, x11_special_without_job); (14, x14_speed_not_positive); (16, x16_recharge_times);
+  [(7, xk7_over8); (9, on_base k9_no_vehicles);                    (* K6, K8, X14: repaired in /repo *)
+   (11, x11_special_without_job); (16, x16_recharge_times);
    (21, g1_goal_unbuildable); (22, g2_required_breaks)].
 Definition xknown (d : xdoc) : bool := existsb (fun kf => snd kf d) xknown_table.
 
@@ -225,7 +226,8 @@ Definition xknown (d : xdoc) : bool := existsb (fun kf => snd kf d) xknown_table
    and a location list that is empty exactly when the base document has no location ---------- *)
 Definition is_base_document (d : xdoc) : bool :=
   is_none (x_relations d) && is_none (x_objectives d) && is_none (x_clustering d) && is_none (x_matrices d)
-  && negb (existsb is_index (x_locs d)) && Bool.eqb (nonempty (x_locs d)) (has_location (xbase d)).
+  && negb (existsb is_index (x_locs d)) && Bool.eqb (nonempty (x_locs d)) (has_location (xbase d))
+  && negb (existsb (fun s => s <=? 0) (x_speeds d)).
 
 
 (* ---------- entry points for the correspondence ---------- *)
